@@ -162,6 +162,46 @@ def shared_cached_objects(ctx):
                     for t in st.targets:
                         if isinstance(t, ast.Attribute) and isinstance(t.value, ast.Name) and t.value.id in got:
                             hits.append((mod, fn, cached[got[t.value.id]], st))
+    # a memoised function whose value HOLDS mutable containers (a list display, a comprehension, `[x] * n`, list() / dict() / set() / bytearray()
+    # anywhere in what it returns), stored by a caller into an attribute directly or through a shallow copy (list(v), tuple(v), v[:], v.copy()):
+    # the inner containers are one object for every caller, so filling in one object's structure fills in every other's
+    def holds_mutable(e):
+        for x in ast.walk(e):
+            if isinstance(x, (ast.List, ast.ListComp, ast.Dict, ast.DictComp, ast.Set, ast.SetComp)):
+                return True
+            if isinstance(x, ast.Call) and isinstance(x.func, ast.Name) and x.func.id in ("list", "dict", "set", "bytearray", "defaultdict"):
+                return True
+        return False
+    mutable_cached = set()
+    for name, (mn, qn) in cached.items():
+        f = repo.modules[mn].functions.get(qn)
+        if f is None or f.name != name:
+            continue
+        local = {st.targets[0].id: st.value for st in ast.walk(f) if isinstance(st, ast.Assign) and len(st.targets) == 1 and isinstance(st.targets[0], ast.Name)}
+        for r in ast.walk(f):
+            if isinstance(r, ast.Return) and r.value is not None:
+                v = local.get(r.value.id, r.value) if isinstance(r.value, ast.Name) else r.value
+                if holds_mutable(v) and not (isinstance(v, ast.Call) and isinstance(v.func, ast.Name) and v.func.id in ("bytes", "str", "int", "sum", "len", "frozenset")
+                                              or isinstance(v, ast.Call) and isinstance(v.func, ast.Attribute) and v.func.attr in ("join", "digest", "hex")):
+                    mutable_cached.add(name)
+    for mn, mod in repo.modules.items():
+        if not mutable_cached:
+            break
+        for fn in raw_fns_all(mod):     # as written: the front end inlines small helpers into their callers
+            for st in ast.walk(fn):
+                if not (isinstance(st, ast.Assign) and any(isinstance(t, ast.Attribute) for t in st.targets)):
+                    continue
+                v = st.value
+                if isinstance(v, ast.Call) and isinstance(v.func, ast.Name) and v.func.id in ("list", "tuple") and len(v.args) == 1:
+                    v = v.args[0]
+                elif isinstance(v, ast.Call) and isinstance(v.func, ast.Attribute) and v.func.attr == "copy" and not v.args:
+                    v = v.func.value
+                elif isinstance(v, ast.Subscript) and isinstance(v.slice, ast.Slice) and v.slice.lower is None and v.slice.upper is None:
+                    v = v.value
+                if isinstance(v, ast.Call):
+                    nm = v.func.attr if isinstance(v.func, ast.Attribute) else (v.func.id if isinstance(v.func, ast.Name) else None)
+                    if nm in mutable_cached:
+                        hits.append((mod, fn, cached[nm], st))
     return len(cached), hits
 
 
